@@ -110,7 +110,7 @@ META = {
             "inner counts depending on the outer item, divisions that fail for some item) the compiled instruction list with its "
             "jump targets is converted to the structured model, which must predict the executed trace, the threshold and every "
             "outcome from the code and the data alone (also if/elif/else on the items, for-else, loop filters, nested combinations, "
-            "Rem and a failing int filter). "
+            "continue, break, Rem and a failing int filter). "
             "Edge stream (harness c13_edges, built WITH and WITHOUT verif_hooks): 26 include/import/from-import/extends forms x 39 "
             "callee templates and 24 macro / call block / imported macro / block / self.block() / child block / super() (also captured, "
             "twice, three levels) / render_block / call_macro / Value::call / filter-, test-, map-, select-callback edges x 28 callee "
@@ -147,7 +147,10 @@ META = {
                   "uses_as_modelled/track_before_dispatch/tracker_sites_as_modelled/nested_evaluations_share_state and additionally "
                   "validated on every scanned run (limited run = prefix of "
                   "the unlimited trace). The structured-program model covers for loops (also with else part and filter), conditionals and "
-                  "failing IntDiv / Rem / filters; break, continue and loop recursion are covered by the machine theorems only. "
+                  "failing IntDiv / Rem / filters, and `continue` / `break` at the top level of a loop body (encoded with the conditional: the "
+                  "jump stands in for the loop's back jump, a loop with a break gets the number of started iterations as its trip count "
+                  "and a conditional around the Iterate that finds the end); continue/break nested deeper, break out of a loop with an else "
+                  "part and loop recursion are covered by the machine theorems and the differential streams only. "
                   "That the executed trace of an edge is a splice of the callee's trace into the edge's own instructions is validated "
                   "per edge x callee shape (hook trace) and tied by output_sites_are_instruction_arms (regex table), not proved from a "
                   "transcription of perform_include etc. The edge oracle reads 'accumulates across nested evaluations' as: the cost of "
@@ -226,7 +229,11 @@ def skel_tokens(static_full, fail_ops=("IntDiv", "Rem")):
     args = [x.get("arg") for x in static_full]
     ids = {"loop": 0, "fail": 0, "cond": 0}
 
-    def parse(i, end):
+    broke = set()
+
+    def parse(i, end, loop_iter=None, top=False, loop_end=None, lid_here=None):
+        # loop_iter: index of the Iterate of the innermost enclosing loop; top: the region ends where that
+        # loop's body ends (in front of its back jump)
         toks = []
         while i < end:
             op = names[i]
@@ -239,8 +246,17 @@ def skel_tokens(static_full, fail_ops=("IntDiv", "Rem")):
                     raise ValueError("loop layout")
                 lid = ids["loop"]
                 ids["loop"] += 1
-                body = parse(i + 2, x - 1)
-                toks += ["L", str(lid), "1", "1", "1", "1", "PushLoop", "Iterate", "Jump", "Iterate"] + body + ["E"]
+                body = parse(i + 2, x - 1, loop_iter=i + 1, top=True, loop_end=x, lid_here=lid)
+                if lid in broke:
+                    # a loop that can be left by `break`: the Iterate that finds the end runs only when no
+                    # iteration broke out (a conditional of its own, numbered after those of the body)
+                    if names[x] != "PopLoopFrame":
+                        raise ValueError("break out of a loop with an else part")
+                    cid = ids["cond"]
+                    ids["cond"] += 1
+                    toks += ["L", str(lid), "1", "1", "1", "0", "PushLoop", "Iterate", "Jump"] + body + ["E", "B", str(cid), "I", "Iterate", "E", "E"]
+                else:
+                    toks += ["L", str(lid), "1", "1", "1", "1", "PushLoop", "Iterate", "Jump", "Iterate"] + body + ["E"]
                 i = x
             elif op == "JumpIfFalse":
                 t = args[i]
@@ -248,14 +264,32 @@ def skel_tokens(static_full, fail_ops=("IntDiv", "Rem")):
                     raise ValueError("conditional jump leaves its region")
                 cid = ids["cond"]
                 ids["cond"] += 1
+                if top and t - 1 > i and names[t - 1] == "Jump" and args[t - 1] == loop_end and loop_end is not None:
+                    # `{% if … %}…{% break %}{% endif %}` at the top level of a loop body: like continue, and the loop ends
+                    # (the context's trip count is the number of iterations that were started)
+                    broke.add(lid_here)
+                    first = parse(i + 1, t - 1, loop_iter)
+                    second = parse(t, end, loop_iter, top=True, loop_end=loop_end, lid_here=lid_here)
+                    toks += ["I", "JumpIfFalse", "B", str(cid)] + first + ["E"] + second + ["E"]
+                    i = end
+                    continue
+                if top and t - 1 > i and names[t - 1] == "Jump" and args[t - 1] == loop_iter:
+                    # `{% if … %}…{% continue %}{% endif %}` at the top level of a loop body: the first side ends with
+                    # the jump to the loop's Iterate, which takes the place of the loop's own back jump (same
+                    # instruction); the rest of the body is the second side
+                    first = parse(i + 1, t - 1, loop_iter)
+                    second = parse(t, end, loop_iter, top=True, loop_end=loop_end, lid_here=lid_here)
+                    toks += ["I", "JumpIfFalse", "B", str(cid)] + first + ["E"] + second + ["E"]
+                    i = end
+                    continue
                 if t - 1 > i and names[t - 1] == "Jump" and isinstance(args[t - 1], int) and t <= args[t - 1] <= end:
                     # first side ends with the jump over the second side
                     e = args[t - 1]
-                    first = parse(i + 1, t - 1) + ["I", "Jump"]
-                    second = parse(t, e)
+                    first = parse(i + 1, t - 1, loop_iter) + ["I", "Jump"]
+                    second = parse(t, e, loop_iter)
                 else:
                     e = t
-                    first = parse(i + 1, t)
+                    first = parse(i + 1, t, loop_iter)
                     second = []
                 toks += ["I", "JumpIfFalse", "B", str(cid)] + first + ["E"] + second + ["E"]
                 i = e
@@ -288,7 +322,12 @@ def skel_tables(ctx, skel):
     for lid, spec in enumerate(skel["loops"]):
         root, depth = spec[0], spec[1]
         for path, node in nodes(ctx[root], depth):
-            n = sum(1 for x in node if _truthy(x)) if len(spec) > 2 and spec[2] == "truthy" else len(node)
+            if len(spec) > 2 and spec[2] == "truthy":
+                n = sum(1 for x in node if _truthy(x))
+            elif len(spec) > 2 and spec[2] == "until-truthy":  # iterations started when the first truthy item breaks out
+                n = next((k + 1 for k, x in enumerate(node) if _truthy(x)), len(node))
+            else:
+                n = len(node)
             counts.append(f"{lid}:{'.'.join(map(str, path))}:{n}")
     for fid, spec in enumerate(skel["fails"]):
         root, depth = spec[0], spec[1]
@@ -741,6 +780,8 @@ def check_edges(r, label, out):
 
 
 def run_edges(r):
+    import time
+    t0 = time.time()
     for label, no_hooks in (("hooks", False), ("nohooks", True)):
         exe = r.cargo_build("c13_edges", no_hooks=no_hooks)
         if exe is None:
@@ -750,6 +791,7 @@ def run_edges(r):
             r.broken.append(f"harness c13_edges ({label}) exited {rc}: {err[-300:]}")
             continue
         check_edges(r, label, out)
+    r.extra["edge_stream_wall_s"] = round(time.time() - t0, 1)
 
 
 NSHARDS = 8
